@@ -206,9 +206,17 @@ def run(spec, ctx):
         d.extend(ents)
         outdir = os.path.join(root, "o%d" % i)
         os.makedirs(outdir, exist_ok=True)
+        excl = os.path.join(root, "excl.txt")
+        with open(excl, "w") as f:
+            f.write("NOTHING\n")
+        ents0 = ents[0]
         for argv in (["-p", d.root, "-a", "-E"], ["-p", d.root, "-l", "-E"], ["-p", d.root, "-l"], ["-p", d.root, "-a", "-H", "-N"],
                      ["-p", d.root, "--src", "B", ], ["-p", d.root, "--plid", "%08X" % ents[0].pel.plid],
-                     ["-f", ents[0].path, "-E"], ["-p", d.root, "-n", "-E"], ["-p", d.root, "-j", "-E", "-o", outdir]):
+                     ["-f", ents[0].path, "-E"], ["-p", d.root, "-n", "-E"], ["-p", d.root, "-j", "-E", "-o", outdir],
+                     ["-p", d.root, "-a", "-E", "-r"], ["-p", d.root, "-l", "-E", "-r"], ["-p", d.root, "--src-exclude", excl],
+                     ["-p", d.root, "--bmc-id", str(ents0.pel.bmcid)], ["-p", d.root, "-a", "-E", "-P"], ["-f", ents[0].path, "-E", "-P"],
+                     ["-p", d.root, "-l", "-S", "Critical", "Informational", "-N"]):
+
             ctx.current = {"argv": argv, "files": [e.name for e in ents]}
             ctx.case(json.dumps(argv[2:]) + str(i) + str(spec["rseed"]), True, sample={"argv": argv[2:]} if i == 0 else None)
             rc, out, err, tb = harness.cli(argv)
@@ -232,9 +240,9 @@ def run(spec, ctx):
             except ValueError as e:
                 ctx.violation("C06/cli-stdout-not-json", "stdout of peltool %s does not parse: %s" % (argv[2:], e), stdout=out[:3000])
                 continue
-            if attached and argv[0] == "-f" and doc != STATE["last_in"]:
+            if attached and (argv[0] == "-f" or "--bmc-id" in argv) and doc != STATE["last_in"] and not isinstance(doc, str):
                 ctx.violation("C06/cli-document-differs", "-f printed a document different from the decoded one")
-            if attached and ("-l" in argv or "--src" in argv or "--plid" in argv):
+            if attached and ("-l" in argv or "--src" in argv or "--plid" in argv or "--src-exclude" in argv):
                 if doc != STATE["last_in"]:
                     ctx.violation("C06/cli-list-differs", "%s printed a list different from the summary it built" % argv[2:])
         d.remove()
